@@ -78,7 +78,7 @@ class PoolRun(object):
                 g.forced = True
         return g
 
-    def make_task(self, tid, kind, param):
+    def make_task(self, tid, kind, param, shape=None):
         s = self.s
         run = self
 
@@ -102,6 +102,16 @@ class PoolRun(object):
                 s.emit("task.end", tid)
 
         task.__name__ = "task_%s" % tid
+        if shape == "partial":
+            import functools
+
+            return functools.partial(task)
+        if shape == "object":
+            class Callable(object):
+                def __call__(self, *args, **kwargs):
+                    return task(*args, **kwargs)
+
+            return Callable()
         return task
 
     # -- program interpretation --------------------------------------------------
@@ -118,7 +128,7 @@ class PoolRun(object):
                 self.pool.stop()
             elif name == "enq":
                 tid = "t%d.%d" % (ti, oi)
-                task = self.make_task(tid, op[1], op[2])
+                task = self.make_task(tid, op[1], op[2], op[3] if len(op) > 3 else None)
                 fut = self.pool.enqueue(task, tid, op[1], k=tid)
                 self.futures[tid] = fut
                 local.append(tid)
